@@ -83,6 +83,10 @@ def check_stats(case, ctx):
     if case.get('error_seed') is not None:
         error = np.abs(np.random.default_rng(case['error_seed']).normal(
             2.0, 1.0, size=data.shape)) + 0.1
+        # non-finite *errors* do not mask a pixel (documented): statistics
+        # are unchanged, only sum_err becomes non-finite
+        for (j, i, v) in case.get('error_special', []):
+            error[j % ny, i % nx] = v
     shape = case['shape']
     pos = case['positions']
     scalar = len(pos) == 1 and case.get('scalar')
@@ -286,7 +290,16 @@ def check_stats(case, ctx):
                             f'{got_area!r} expected {exp_area!r} position {k}',
                             stat='sum_aper_area', kind=shape['kind'],
                             degenerate_contact=degen)
-        if error is not None:
+        if error is not None and not np.all(np.isfinite(error[keep | amb_s])):
+            ctx.event('nonfinite_error_in_aperture')
+            if not amb_s.any():
+                ge = g('sum_err')
+                if math.isfinite(ge):
+                    raise Violation('stat_sum_err',
+                                    f'sum_err {ge!r} is finite although the error '
+                                    f'map is non-finite at an unmasked aperture '
+                                    f'pixel (position {k})', stat='sum_err')
+        elif error is not None:
             lo = math.sqrt(float((np.clip(Ws - Ss, 0, None) * error ** 2)[keep].sum()))
             hi = math.sqrt(float(((Ws + Ss) * error ** 2)[keep | amb_s].sum()))
             ge = g('sum_err')
@@ -335,7 +348,10 @@ def stats_cases(draw):
             'local_bkg': None if lbk == 'none' else draw(st.floats(-5, 5)) if lbk == 'scalar'
             else draw(st.lists(st.floats(-5, 5), min_size=5, max_size=5)),
             'quantity': draw(st.integers(0, 4)) == 0,
-            'sky': False}
+            'sky': False,
+            'error_special': [[draw(st.integers(0, 40)), draw(st.integers(0, 40)),
+                               draw(st.sampled_from([float('nan'), float('inf')]))]
+                              for _ in range(draw(st.sampled_from([0, 0, 0, 1, 3])))]}
     if draw(st.integers(0, 5)) == 0 and ny >= 8 and nx >= 8 \
             and sh['kind'] not in ('eannulus', 'rannulus') or False:
         if 'b_in' not in sh and 'h_in' not in sh:
